@@ -162,7 +162,88 @@ def extract():
         fail("coverage.order", f"protected steps without a position in the execution order: {missing}")
     m0 = re.search(r"enum\s+HybridStep", t)
     record("coverage.order", rel, t, m0, [("/".join(p), k) for p, k in order])
-    # 5. gates on which values are opened (two-copy reveal): step names starting with `reveal` outside validate steps
+    # 5. gates on which values are opened (two-copy reveal) inside a DZKP / MAC protected step: variants named
+    #    `Reveal*` of the protocol step itself or of its child enum (one level; MaliciousProtocol -> PrfStep)
+    child_files = {"PrfStep": "protocol/ipa_prf/step.rs", "Fp25519ConversionStep": "protocol/ipa_prf/boolean_ops/step.rs",
+                   "MaliciousProtocolStep": "protocol/context/step.rs"}
+    child_enums = {}
+    for en, relc in child_files.items():
+        tc = read(relc)
+        ec = parse_enums(tc)
+        if en not in ec:
+            fail("coverage.open." + en, f"enum {en} not found in {relc}")
+            continue
+        child_enums[en] = ec[en]
+        record("coverage.open." + en, relc, tc, re.search(r"enum\s+" + en, tc), [(n, a["seg"]) for n, a in ec[en]])
+    open_gates = []
+    def variant_of(path):
+        # the enum variant that produced `path`
+        if len(path) == 1:
+            return next(((n, a) for n, a in enums["HybridStep"] if a["seg"] == path[0]), None)
+        if path[0] == hyb["Aggregate"]["seg"]:
+            return next(((n, a) for n, a in enums["AggregationStep"] if a["seg"] == path[1]), None)
+        if path[0] == hyb["Finalize"]["seg"]:
+            return next(((n, a) for n, a in enums["FinalizeSteps"] if a["seg"] == path[1]), None)
+        if path[0] == hyb["EvalPrf"]["seg"] and "MaliciousProtocolStep" in child_enums:
+            return next(((n, a) for n, a in child_enums["MaliciousProtocolStep"] if a["seg"] == path[1]), None)
+        return None
+    for pth, k in order:
+        if k not in ("dzkp", "mac"):
+            continue
+        va = variant_of(pth)
+        if va is None:
+            continue
+        n, a = va
+        if n.startswith("Reveal"):
+            open_gates.append(pth)
+        ch = a.get("child")
+        if ch in child_enums:
+            for n2, a2 in child_enums[ch]:
+                if n2.startswith("Reveal"):
+                    open_gates.append(pth + [a2["seg"]])
+    if len(open_gates) < 3:
+        fail("coverage.open", f"expected the openings of convert / eval_prf / aggregate, found {open_gates}")
+    # 6. the verified shuffle: rows are committed before the MAC keys are opened.  Statement order in
+    #    `malicious_sharded_shuffle`: the `.await` of h{1,2,3}_shuffle_for_shard precedes `verify_shuffle`, the
+    #    keys are opened (`reveal_keys`) only inside `verify_shuffle`, before the hashes are computed, and the
+    #    shuffle is not joined with anything (no try_join in the function body).
+    rel6 = "protocol/ipa_prf/shuffle/malicious.rs"
+    t6 = read(rel6)
+    mfn = re.search(r"pub async fn malicious_sharded_shuffle.*?\n\}\n", t6, re.S)
+    commit_gates, key_gate = [], []
+    if not mfn:
+        fail("coverage.shuffle_order", "malicious_sharded_shuffle not found")
+    else:
+        body = mfn.group(0)
+        calls = [m_.start() for m_ in re.finditer(r"h[123]_shuffle_for_shard\(ctx\.clone\(\), shares_and_tags\)\.await", body)]
+        mq = re.search(r"\}\?;", body[calls[-1]:]) if calls else None
+        mv = re.search(r"verify_shuffle::<_, S>\(", body)
+        ok6 = (len(calls) == 3 and mq is not None and mv is not None and calls[-1] < mv.start()
+               and "reveal_keys" not in body and "join" not in body)
+        mvf = re.search(r"async fn verify_shuffle.*?\n\}\n", t6, re.S)
+        if mvf:
+            vb = mvf.group(0)
+            mk = re.search(r"let keys = reveal_keys\(&k_ctx, key_shares\)\.await\?;", vb)
+            mh = re.search(r"h1_verify::<_, S>\(", vb)
+            ok6 = ok6 and mk is not None and mh is not None and mk.start() < mh.start() and vb.count("reveal_keys") == 1
+        else:
+            ok6 = False
+        ok6 = ok6 and len(re.findall(r"reveal_keys\(", t6.split("#[cfg(all(test")[0])) == 1  # the call in verify_shuffle (the definition is generic: `reveal_keys<C`)
+        if ok6:
+            record("coverage.shuffle_order", rel6, t6, mfn, "shuffle .await; then verify_shuffle { reveal_keys; h*_verify }")
+        else:
+            fail("coverage.shuffle_order", "statement order of malicious_sharded_shuffle / verify_shuffle changed: the MAC keys must be opened only after the shuffle rounds were awaited")
+    rel7 = "protocol/ipa_prf/shuffle/step.rs"
+    t7 = read(rel7)
+    e7 = parse_enums(t7)
+    try:
+        ss = dict(e7["ShardedShuffleStep"])
+        vs = dict(e7["VerifyShuffleStep"])
+        commit_gates = [[ss[n]["seg"]] for n in ("TransferXY", "TransferC", "Cardinality")]
+        key_gate = [ss["VerifyShuffle"]["seg"], vs["RevealMACKey"]["seg"]]
+        record("coverage.shuffle_gates", rel7, t7, re.search(r"enum\s+ShardedShuffleStep", t7), {"commit": commit_gates, "key": key_gate})
+    except KeyError as e:
+        fail("coverage.shuffle_gates", f"shuffle step {e} not found in {rel7}")
     lines = [
         "/-! GENERATED by tools/extractors/c02_coverage.py from ipa-core/src/protocol/hybrid/*.rs — do not edit. -/",
         "namespace IpaVerif.Generated",
@@ -183,5 +264,14 @@ def extract():
               "def validateOf : List (List String × List String) := ["]
     vo = sorted(validate_of.items())
     lines += ["  (" + lst(list(p)) + ", " + lst(v) + ")" + ("," if i + 1 < len(vo) else "") for i, (p, v) in enumerate(vo)]
-    lines += ["]", "", "end IpaVerif.Generated", ""]
+    lines += ["]", "",
+              "/-- gates of DZKP / MAC protected steps on which values are opened (`Reveal*` steps) -/",
+              "def openGates : List (List String) := ["]
+    lines += ["  " + lst(p) + ("," if i + 1 < len(open_gates) else "") for i, p in enumerate(open_gates)]
+    lines += ["]", "",
+              "/-- gates of a verified shuffle that carry rows / row counts (below the shuffle's step) -/",
+              "def shuffleCommitGates : List (List String) := [" + ", ".join(lst(g) for g in commit_gates) + "]", "",
+              "/-- gate (below the shuffle's step) on which the MAC keys are opened -/",
+              "def shuffleKeyGate : List String := " + lst(key_gate), "",
+              "end IpaVerif.Generated", ""]
     return {"Coverage.lean": "\n".join(lines)}
